@@ -237,57 +237,108 @@ def define_rules(run):
     # unused defines: a definition is used only when its name resolves to a declared *constant*
     u = run.anchor(R, "asm::check_unused_defines")
     if u is not None:
-        tg_ = _calls(u, "SymbolManager::try_get_by_name")
-        oku = len(tg_) == 1
-        why = "%d symbol lookups" % len(tg_)
-        if oku:
-            tb, tt = tg_[0]
-            # the flag that decides: false when the lookup finds nothing, and otherwise `kind is Constant`
-            flag = None
-            for bi, t in u.calls():
+        oku = False
+        why = "no decision of the form `report and fail unless the name is a declared constant` found"
+
+        def kind_is_constant_edges(g):
+            """(switch block, edge target) pairs: the `Constant` arm of a match on the kind of a looked-up symbol"""
+            out = []
+            for b2 in sorted(g.reachable()):
+                t2 = g.blocks[b2]["term"]
+                if t2["k"] == "switch" and op_local(t2["discr"]) is not None:
+                    o = g.origin_local(op_local(t2["discr"]))
+                    if o[0] == "discr" and "SymbolKind" in (o[2].get("adt") or "") and deep(g, o[1], 5).endswith(".kind"):
+                        vs = o[2].get("variants") or {}
+                        for v, tgt in t2["targets"]:
+                            if vs.get(v) == "Constant":
+                                out.append((b2, tgt))
+            return out
+
+        def is_constant_flag(l):
+            """is bool local l true exactly when the name resolved to a declared constant?"""
+            root = u.copy_root(l)
+            ds = u.full_defs(root)
+            if len(ds) == 1 and ds[0][0] == "call":
+                t = ds[0][2]
                 if re.search(r"Option::<T>::(map_or|is_some_and)$", t.get("callee") or "") and "try_get_by_name" in deep(u, t["args"][0], 3):
                     cid = closure_of_origin(u.origin_op(t["args"][-1]))
                     g = run.prog.fn(cid) if cid else None
                     dflt = deep(u, t["args"][1], 2) if len(t["args"]) == 3 else "false"
-                    is_const = False
-                    if g is not None:
-                        for b2 in sorted(g.reachable()):
-                            t2 = g.blocks[b2]["term"]
-                            if t2["k"] == "switch" and op_local(t2["discr"]) is not None:
-                                o = g.origin_local(op_local(t2["discr"]))
-                                if o[0] == "discr" and "SymbolKind" in (o[2].get("adt") or "") and deep(g, o[1], 5).endswith(".kind"):
-                                    vs = o[2].get("variants") or {}
-                                    for v, tgt in t2["targets"]:
-                                        if vs.get(v) == "Constant":
-                                            is_const = True
-                    if dflt == "false" and is_const:
-                        flag = t["dest"]["l"]
-            sw = None
-            if flag is not None:
-                for b in sorted(u.reachable()):
-                    tt2 = u.blocks[b]["term"]
-                    if tt2["k"] == "switch" and op_local(tt2["discr"]) is not None:
-                        l_ = op_local(tt2["discr"])
-                        o = u.origin_local(l_)
-                        neg = o[0] == "unop" and o[1]["op"] == "Not" and op_local(o[1]["x"]) is not None and u.copy_root(op_local(o[1]["x"])) == u.copy_root(flag)
-                        pos = u.copy_root(l_) == u.copy_root(flag)
-                        if neg or pos:
-                            ft = [tg for v, tg in tt2["targets"] if v == "0"]
-                            if ft:
-                                # edge taken when the name is NOT a declared constant
-                                bad_edge = tt2["otherwise"] if neg else ft[0]
-                                sw = (b, bad_edge)
-            if sw is None:
-                # the old shape: error exactly when nothing is found (does not cover names of labels/functions)
-                s0 = _switch_on_call_result(u, tb, tt)
-                oku = False
-                why = "a definition is accepted as soon as its name resolves to any symbol (label, function), not only to a constant" if s0 else "no decision on the lookup result"
-            else:
-                reg = T.dominated_region(u, sw[1], sw[0])
-                oku = report_error_in_region(u, reg)
-                flag_set = any(st["k"] == "assign" and st["rv"]["k"] == "use" and str(st["rv"]["op"].get("const")) == "true" for x in reg for st in u.blocks[x]["stmts"])
-                oku = oku and flag_set
-                why = "the `not a declared constant` edge does not report and mark the failure"
+                    return dflt == "false" and g is not None and bool(kind_is_constant_edges(g))
+                return False
+            # assigned constants on the arms of explicit matches
+            edges = kind_is_constant_edges(u)
+            if not ds or not edges:
+                return False
+            for d_ in ds:
+                if d_[0] != "stmt" or d_[3]["k"] != "assign" or d_[3]["rv"]["k"] != "use":
+                    return False
+                c = const_int(d_[3]["rv"]["op"])
+                if c is None:
+                    return False
+                if c == 1 and not any(u.edge_dominates(sb, e, d_[1]) for sb, e in edges):
+                    return False
+            return any(const_int(d_[3]["rv"]["op"]) == 1 for d_ in ds)
+
+        for b in sorted(u.reachable()):
+            tt2 = u.blocks[b]["term"]
+            if tt2["k"] != "switch" or op_local(tt2["discr"]) is None or u.local_ty(op_local(tt2["discr"])) != "bool":
+                continue
+            l_ = op_local(tt2["discr"])
+            o = u.origin_local(l_)
+            neg = False
+            if o[0] == "unop" and o[1]["op"] == "Not" and op_local(o[1]["x"]) is not None:
+                neg = True
+                l_ = op_local(o[1]["x"])
+            if not is_constant_flag(l_):
+                continue
+            ft = [tg for v, tg in tt2["targets"] if v == "0"]
+            if not ft:
+                continue
+            # edge taken when the name is NOT a declared constant
+            bad_edge = tt2["otherwise"] if neg else ft[0]
+            good_edge = ft[0] if neg else tt2["otherwise"]
+            # every way on from here that does not go through the good edge reports and marks the failure
+            reg = T.dominated_region(u, bad_edge, b)
+            rep = report_error_in_region(u, reg)
+            flag_set = any(st["k"] == "assign" and st["rv"]["k"] == "use" and str(st["rv"]["op"].get("const")) == "true" for x in reg for st in u.blocks[x]["stmts"])
+            if not (rep and flag_set):
+                # `if constant { continue }` followed by the report: the report is what follows the bad edge outside a region
+                seen = set()
+                work = [bad_edge]
+                while work:
+                    x = work.pop()
+                    if x in seen or x == b:
+                        continue
+                    seen.add(x)
+                    work.extend(z for z in u.succs(x) if not u.blocks[z]["cleanup"] and z != good_edge)
+                rep = report_error_in_region(u, seen)
+                flag_set = any(st["k"] == "assign" and st["rv"]["k"] == "use" and str(st["rv"]["op"].get("const")) == "true" for x in seen for st in u.blocks[x]["stmts"])
+                # and the good edge must not lead into the report
+                gseen = set()
+                work = [good_edge]
+                hits_report = False
+                while work:
+                    x = work.pop()
+                    if x in gseen:
+                        continue
+                    gseen.add(x)
+                    tx = u.blocks[x]["term"]
+                    if tx["k"] == "call" and re.search(r"Report::error", re.sub(r"::<[^<>]*>", "", tx.get("resolved") or tx.get("callee") or "")):
+                        hits_report = True
+                    # stop at the loop header (next definition)
+                    if x != good_edge and u.dominates(x, b):
+                        continue
+                    work.extend(z for z in u.succs(x) if not u.blocks[z]["cleanup"])
+                rep = rep and not hits_report
+            oku = rep and flag_set
+            why = "the `not a declared constant` edge does not report and mark the failure"
+            if oku:
+                break
+        if not oku and "no decision" in why:
+            tg_ = _calls(u, "SymbolManager::try_get_by_name")
+            if tg_ and _switch_on_call_result(u, tg_[0][0], tg_[0][1]):
+                why = "a definition is accepted as soon as its name resolves to any symbol (label, function), not only to a constant"
         run.check(oku, R, R + "|define|unused-is-error", u.loc(), "a command-line definition whose name is not a declared constant is reported and fails the assembly",
                   "check_unused_defines: %s" % why)
 
